@@ -1,8 +1,9 @@
 (* C07 — A seeded run is reproducible. *)
 From Coq Require Import String List Bool Arith.
 From PV Require Import Skeleton Lifecycle Lifecycle_proofs Loop.
-From PV Require Import Xnum Vars.
-From PVGen Require Import Algos Expected GenSchema GenSeed GenHyper GenMultiVar.
+From PV Require Import Xnum Vars Labels.
+From Coq Require Import Permutation.
+From PVGen Require Import Algos Expected GenSchema GenSeed GenHyper GenMultiVar GenLabels.
 From PVBridge Require Import AlgoBridge LifeMain LoopBridge.
 
 (* optimize() seeds numpy's stream from the task before anything draws (regenerated schema), and Task.seed is an integer field *)
@@ -34,6 +35,15 @@ Theorem C07_sampling_reads_fields_and_stream_only : forall (du : xnum -> xnum ->
   (forall ch, gen_cmv_randomize r ch = map r ch /\ gen_mov_randomize r ch = map r ch /\ gen_dmv_randomize r ch = map r ch /\ gen_bin_randomize r ch = map r ch).
 Proof. intros. repeat split. Qed.
 
+(* the one set whose members ARE put in an order - LabelEncoder.fit: sorted(set(y), key=...) - : whatever order the set hands its members out in (it depends on
+   the per-process hash seed for strings), the REGENERATED fit yields the same label list, the sort key being a total order on the distinct labels *)
+Theorem C07_label_order_independent : forall L (eqb leb : L -> L -> bool),
+  (forall a b, leb a b = true \/ leb b a = true) -> (forall a b c, leb a b = true -> leb b c = true -> leb a c = true) ->
+  (forall a b, leb a b = true -> leb b a = true -> a = b) ->
+  (forall y, gen_le_fit_labels L eqb leb y = isort L leb (dedup L eqb y)) /\
+  (forall s s', Permutation s s' -> isort L leb s = isort L leb s').
+Proof. intros L eqb leb T Tr An. split; [reflexivity|]. exact (fit_labels_order_independent L leb T Tr An). Qed.
+
 (* an unseeded entropy read would let two equal-seed runs differ (why the fact is needed) *)
 Theorem C07_entropy_admits_difference : forall value (v1 v2 : value), v1 <> v2 ->
   exists (o : op loc value) (s1 s2 : store loc value), s1 LIn = s2 LIn /\ s1 LG = s2 LG /\ s1 LState = s2 LState /\
@@ -43,5 +53,6 @@ Proof. exact entropy_admits_difference. Qed.
 Print Assumptions C07_seeded_first.
 Print Assumptions C07_sampling_reads_fields_and_stream_only.
 Print Assumptions C07_no_hash_ordered_iteration.
+Print Assumptions C07_label_order_independent.
 Print Assumptions C07_reproducible.
 Print Assumptions C07_entropy_admits_difference.
